@@ -2,6 +2,7 @@
 // empty result when the library is built with -fno-exceptions).  Built twice (see tools/propconf.py).
 #include "unity.h"
 #include "clipper2/clipper.minkowski.h"
+#include "clipper2/clipper.export.h"
 #include "gp.h"
 using namespace vh;
 
@@ -173,6 +174,46 @@ int main(int argc, char** argv) {
     stat("success.kind." + std::to_string(kind));
     if (!ok) emitF("execute-returned-false", "ct=" + std::to_string((int)ct) + " fr=" + std::to_string((int)fr) + " subj=" + S(s) + " open=" + S(o) + " clip=" + S(c));
     if (ct == ClipType::NoClip) { stat("success.noclip"); if (!sol.empty() || !solo.empty()) emitF("noclip-not-empty", "subj=" + S(s) + " clip=" + S(c)); }
+  }
+  // clippers fed from a ReuseableDataContainer64 (AddReuseableData marks the object "not yet succeeded" until the next Reset)
+  for (int i = 0; i < (thorough ? 400 : 60); ++i) {
+    GpInput in = gen_gp(g);
+    ReuseableDataContainer64 rd; rd.AddPaths(in.subj, PathType::Subject, false); rd.AddPaths(in.clip, PathType::Clip, false);
+    for (int ct = 0; ct <= 4; ++ct) {
+      Clipper64 cl; cl.AddReuseableData(rd);
+      Paths64 sol; PolyTree64 tree;
+      bool ok = (i & 1) ? cl.Execute((ClipType)ct, FRS[i % 4], sol) : cl.Execute((ClipType)ct, FRS[i % 4], tree);
+      stat("success.reuseable");
+      if (!ok) emitF("execute-returned-false", "AddReuseableData then Execute ct=" + std::to_string(ct) + " fr=" + std::to_string(i % 4) + " subj=" + S(in.subj) + " clip=" + S(in.clip));
+      if (ct == 0 && (!sol.empty() || tree.Count() != 0)) emitF("noclip-not-empty", "reuseable data, NoClip");
+    }
+  }
+  // C boundary: out-of-range clip type / fill rule / precision must be rejected with a negative code (or nullptr) — all values
+  {
+    int64_t sq[] = {12, 1, 4, 0, 0, 0, 10, 0, 10, 10, 0, 10};   // CPaths64: [A=12, C=1, N=4, 0, x,y …]
+    double sqd[] = {12, 1, 4, 0, 0, 0, 10, 0, 10, 10, 0, 10};
+#ifdef USINGZ
+    (void)sq; (void)sqd;
+#else
+    for (int ct = 0; ct < 256; ++ct) for (int fr = 0; fr < 256; fr += (ct < 6 ? 1 : 37)) {
+      bool bad = ct > 4 || fr > 3;
+      int64_t *sol = nullptr, *solo = nullptr; double *sold = nullptr, *solod = nullptr;
+      int r1 = BooleanOp64((uint8_t)ct, (uint8_t)fr, sq, nullptr, sq, sol, solo, true, false);
+      int r2 = BooleanOpD((uint8_t)ct, (uint8_t)fr, sqd, nullptr, sqd, sold, solod, 2, true, false);
+      stat("export.validation.calls", 2);
+      if (bad != (r1 < 0)) emitF("export.validation", "BooleanOp64 cliptype=" + std::to_string(ct) + " fillrule=" + std::to_string(fr) + " returned " + std::to_string(r1));
+      if (bad != (r2 < 0)) emitF("export.validation", "BooleanOpD cliptype=" + std::to_string(ct) + " fillrule=" + std::to_string(fr) + " precision=2 returned " + std::to_string(r2));
+      if (bad && (sol || solo || sold || solod)) emitF("export.validation", "output pointers touched on a rejected call ct=" + std::to_string(ct) + " fr=" + std::to_string(fr));
+      DisposeArray64(sol); DisposeArray64(solo); DisposeArrayD(sold); DisposeArrayD(solod);
+    }
+    for (int p : {-100, -9, 9, 10, 1000}) {
+      double *sold = nullptr, *solod = nullptr;
+      int r = BooleanOpD(1, 1, sqd, nullptr, sqd, sold, solod, p, true, false);
+      stat("export.validation.calls");
+      if (r >= 0) emitF("export.validation", "BooleanOpD precision=" + std::to_string(p) + " returned " + std::to_string(r));
+      DisposeArrayD(sold); DisposeArrayD(solod);
+    }
+#endif
   }
   {
     ClipperD cd(2); cd.AddSubject(squaresD(1.0)); cd.AddClip(squaresD(0.7));
